@@ -146,7 +146,9 @@ func c06Grammar(res *explore.Result, g *gram.Grammar, inputs [][]byte, verbose b
 			rootEnds = rootEnds[:0]
 			var node parsley.Node
 			var perr error
-			ctx, _, _ := impl.NewContext(w)
+			ctx, _, file := impl.NewContext(w)
+			// a lookup at the END of the file first: the rendering of the error is then a lookup that goes backwards
+			_ = file.Position(len(w))
 			b.Mon.Reset()
 			gd := b.Guard(func() { node, perr = parsley.Parse(ctx, root) })
 			res.Add("states", 1)
@@ -189,6 +191,18 @@ func c06Grammar(res *explore.Result, g *gram.Grammar, inputs [][]byte, verbose b
 			}
 			viol := func(key, what string) { res.Violate(key+"/"+mode, where+": "+what, c) }
 			text := perr.Error()
+			{
+				// the same context asked again (its result cache answers now): the report must be the same
+				var perr2 error
+				saveFailed, saveEnds := failed, rootEnds
+				failed, rootEnds = map[attempt]bool{}, nil
+				g2 := b.Guard(func() { _, perr2 = parsley.Parse(ctx, root) })
+				failed, rootEnds = saveFailed, saveEnds
+				if g2.Panic == "" && g2.Budget == "" && g2.Depth == "" && (perr2 == nil || perr2.Error() != text) {
+					viol("second-parse-on-same-context-differs", fmt.Sprintf("first Parse: %q, second Parse on the same context: %v", text, perr2))
+					continue
+				}
+			}
 			m := c06Re.FindStringSubmatch(text)
 			if m == nil {
 				viol("error-form", fmt.Sprintf("error text %q is not 'failed to parse the input: <expectation> at f:<line>:<col>'", text))
